@@ -146,8 +146,45 @@ def gen_flowprops():
     return m
 
 
-GENERATORS = {"flowprops": gen_flowprops, "fluid": gen_fluid, "water": gen_water, "gas": gen_gas, "oil": gen_oil, "reservoir": gen_reservoir}
-DEPS = {"water": [], "gas": [], "oil": ["gas"], "reservoir": [], "fluid": ["gas", "oil", "water"], "flowprops": []}
+def gen_forecast():
+    m = P.Module(os.path.join(SRC, "forecast", "forecast.py"), "Gen_forecast")
+    P.Tr(m, m.funcs["_forecast_cum_onephase"], emit_name="forecast_cum_onephase", kinds={"rf_curve": "fun"}).translate()
+
+    def bounds_self(nM, ntau):
+        M = P.Tu([P.Sc(f"M{i}") for i in range(nM)])
+        tau = P.Tu([P.Sc(f"tau{i}") for i in range(ntau)])
+        pars = [(f"M{i}", "R") for i in range(nM)] + [(f"tau{i}", "R") for i in range(ntau)]
+        return P.Di({"M": M, "tau": tau}), pars
+    for nM, ntau, suffix in ((2, 2, ""), (1, 2, "_M1"), (3, 2, "_M3"), (2, 1, "_tau1"), (2, 3, "_tau3")):
+        P.Tr(m, m.method("Bounds", "__post_init__"), emit_name="Bounds_post_init" + suffix, option=True, ret_annot="option unit",
+             preset={"self": bounds_self(nM, ntau)}).translate()
+    P.Tr(m, m.method("Bounds", "fit_bounds"), emit_name="Bounds_fit_bounds", preset={"self": bounds_self(2, 2)}).translate()
+    for k in (1, 2):
+        guess = P.SV([P.Sc(f"g{i}") for i in range(k)])
+        P.Tr(m, m.method("Bounds", "regularize_initial_guess"), emit_name=f"Bounds_regularize_{k}",
+             preset={"self": bounds_self(2, 2), "guess": (guess, [(f"g{i}", "R") for i in range(k)])}).translate()
+    return m
+
+
+def gen_plotting():
+    import ast
+    m = P.Module(os.path.join(SRC, "plotting.py"), "Gen_plotting")
+    scale = m.classes["SquareRootScale"]
+
+    def nested(cls, meth):
+        for n in scale.body:
+            if isinstance(n, ast.ClassDef) and n.name == cls:
+                for f in n.body:
+                    if isinstance(f, ast.FunctionDef) and f.name == meth:
+                        return f
+        raise KeyError((cls, meth))
+    P.Tr(m, nested("SquareRootTransform", "transform_non_affine"), emit_name="sqrt_transform", self_fields=[], kinds={"a": "list"}).translate()
+    P.Tr(m, nested("InvertedSquareRootTransform", "transform"), emit_name="sqrt_inverse_transform", self_fields=[], kinds={"a": "list"}).translate()
+    return m
+
+
+GENERATORS = {"plotting": gen_plotting, "forecast": gen_forecast, "flowprops": gen_flowprops, "fluid": gen_fluid, "water": gen_water, "gas": gen_gas, "oil": gen_oil, "reservoir": gen_reservoir}
+DEPS = {"water": [], "gas": [], "oil": ["gas"], "reservoir": [], "fluid": ["gas", "oil", "water"], "flowprops": [], "forecast": [], "plotting": []}
 
 
 def module(name):
